@@ -111,11 +111,17 @@ ConvertOutcome(c) ==
                   creatornone |-> TRUE, gradnone |-> TRUE, basenone |-> TRUE, isarray |-> FALSE]
 
 \* ---------------------------------------------------------------- save / load  (C18)
-SaveCells == {[entry |-> "saveload", dt |-> d, shape |-> sh, const |-> c, grad |-> g, via |-> v] :
+\* name : spelling of the file name for str / Path destinations - the archive is found where numpy.savez puts it:
+\*        "<name>.npz" unless the name already ends in ".npz" ("dotted": a name like  model.v1 ; "two": two tensors saved
+\*        under names that differ only after the dot must not overwrite one another)
+SaveCells == {[entry |-> "saveload", dt |-> d, shape |-> sh, const |-> c, grad |-> g, via |-> v, name |-> nm] :
                 d \in {"f8", "f4", "f2", "i8", "b1"}, sh \in {<<>>, <<0>>, <<3>>, <<2, 2>>, <<0, 3>>, <<1>>},
-                c \in BOOLEAN, g \in {"none", "own", "viewgrad", "viewnograd"}, v \in {"str", "path", "fileobj"}}
+                c \in BOOLEAN, g \in {"none", "own", "viewgrad", "viewnograd"}, v \in {"str", "path", "fileobj"},
+                nm \in {"npz", "bare", "dotted", "two"}}
 \* only float non-constant tensors can hold a gradient; a "view" cell needs at least one element to slice
-SaveRelevant(c) == /\ (IsIntLike(c.dt) => c.const)
+SaveRelevant(c) == /\ (c.via = "fileobj" => c.name = "npz")
+                   /\ (c.name # "npz" => (c.dt = "f8" /\ c.shape \in {<<3>>, <<>>}))        \* name spellings: on a few cells only
+                   /\ (IsIntLike(c.dt) => c.const)
                    /\ (c.grad \in {"own", "viewgrad"} => (IsFloat(c.dt) /\ ~c.const))
                    /\ (c.grad \in {"viewgrad", "viewnograd"} => c.shape \in {<<3>>, <<2, 2>>})
 \* shape of the saved tensor: a view cell saves  t = base[1:]
